@@ -1,0 +1,287 @@
+//go:build verif
+
+// Machine-checked contracts for package s3db. Read as text by the verifier in
+// /verif (gowp); this file contains no executable code. Syntax: see
+// /verif/DESIGN.md, Appendix A.
+package s3db
+
+// ---------------------------------------------------------------------------
+// Abstract keys and the SQLite comparison (property C07), written from the
+// property statement: INTEGER and REAL compare numerically and exactly, then
+// TEXT bytewise, then BLOB bytewise.
+
+//@ ghosttype AbsKey struct { Type int; Int int; Real float64; Text string; Blob string }
+
+//@ spec absKey(v *v1proto.SQLiteValue) AbsKey = AbsKey{Type: int(v.Type), Int: v.Int, Real: v.Real, Text: v.Text, Blob: bytes(v.Blob)}
+
+//@ spec keyTyped(t int) bool = t == 1 || t == 2 || t == 3 || t == 4
+//@ spec classRank(t int) int = ite(t == 1 || t == 2, 0, ite(t == 3, 1, 2))
+//@ spec cmpInt(a int, b int) int = ite(a < b, -1, ite(a > b, 1, 0))
+//@ spec cmpFP(a float64, b float64) int = ite(fp_lt(a, b), -1, ite(fp_lt(b, a), 1, 0))
+//@ spec cmpStr(a string, b string) int = ite(a < b, -1, ite(a == b, 0, 1))
+
+// The code's numeric comparison of an int64 with a double converts the integer
+// to the nearest double first. Exactness (the property) holds where that
+// conversion is exact; cmpIntRealCode is what the code computes.
+//@ spec cmpIntRealCode(i int, r float64) int = cmpFP(fp_of_int(i), r)
+
+//@ spec sqliteCmpAbs(a AbsKey, b AbsKey) int =
+//@   ite(classRank(a.Type) != classRank(b.Type), ite(classRank(a.Type) < classRank(b.Type), -1, 1),
+//@   ite(a.Type == 1 && b.Type == 1, cmpInt(a.Int, b.Int),
+//@   ite(a.Type == 2 && b.Type == 2, cmpFP(a.Real, b.Real),
+//@   ite(a.Type == 1 && b.Type == 2, cmpIntRealCode(a.Int, b.Real),
+//@   ite(a.Type == 2 && b.Type == 1, 0 - cmpIntRealCode(b.Int, a.Real),
+//@   ite(a.Type == 3, cmpStr(a.Text, b.Text), cmpStr(a.Blob, b.Blob)))))))
+
+//@ func typeIndex
+//@   requires v != nil && keyTyped(int(v.Type))
+//@   ensures  result == ite(v.Type == v1proto.Type_INT, 0, ite(v.Type == v1proto.Type_REAL, 1, ite(v.Type == v1proto.Type_TEXT, 2, 3)))
+//@   modifies nothing
+
+//@ func orderType
+//@   requires v != nil && v2 != nil && keyTyped(int(v.Type)) && keyTyped(int(v2.Type))
+//@   ensures  result2 == (int(v.Type) > int(v2.Type))
+//@   ensures  result0 == ite(result2, v2, v) && result1 == ite(result2, v, v2)
+//@   modifies nothing
+
+//@ func order
+//@   requires -1 <= cmp && cmp <= 1
+//@   ensures  result == ite(flip, 0 - cmp, cmp)
+//@   modifies nothing
+
+//@ func (*Key).Value
+//@   requires k != nil && k.SQLiteValue != nil
+//@   ensures int: imp(k.Type == v1proto.Type_INT, typeis(result, int64) && result.(int64) == k.Int)
+//@   ensures real: imp(k.Type == v1proto.Type_REAL, typeis(result, float64) && fpbits_eq(result.(float64), k.Real))
+//@   ensures text: imp(k.Type == v1proto.Type_TEXT, typeis(result, string) && result.(string) == k.Text)
+//@   ensures blob: imp(k.Type == v1proto.Type_BLOB, typeis(result, []byte) && result.([]byte) == k.Blob)
+//@   ensures null: imp(!keyTyped(int(k.Type)), result == nil)
+//@   modifies nothing
+
+//@ func (*Key).IsNull
+//@   requires k != nil && k.SQLiteValue != nil
+//@   ensures result == (k.Type == v1proto.Type_NULL)
+//@   modifies nothing
+
+// Order: total, exact, never panics on two non-NULL keys. NaN never reaches a
+// key (SQLite turns NaN into NULL before the virtual table sees it).
+//@ func (*Key).Order
+//@   requires k != nil && k.SQLiteValue != nil && keyTyped(int(k.Type))
+//@   requires imp(k.Type == v1proto.Type_REAL, !isnan(k.Real))
+//@   requires imp(o2 != nil, typeis(o2, *Key) && o2.(*Key) != nil && o2.(*Key).SQLiteValue != nil && keyTyped(int(o2.(*Key).Type)))
+//@   requires imp(o2 != nil && o2.(*Key).Type == v1proto.Type_REAL, !isnan(o2.(*Key).Real))
+//@   ensures nilarg: imp(o2 == nil, result == 1)
+//@   ensures cmp: imp(o2 != nil, result == sqliteCmpAbs(absKey(k.SQLiteValue), absKey(o2.(*Key).SQLiteValue)))
+//@   modifies nothing
+
+// ---------------------------------------------------------------------------
+// Go value <-> tagged protobuf value (property C08)
+
+//@ spec sqlTyped(i interface{}) bool = i == nil || typeis(i, int64) || typeis(i, float64) || typeis(i, string) || typeis(i, []byte)
+//@ spec goIntTyped(i interface{}) bool = typeis(i, int) || typeis(i, int8) || typeis(i, int16) || typeis(i, int32) || typeis(i, uint) || typeis(i, uint8) || typeis(i, uint16) || typeis(i, uint32)
+
+// tagged(v, i): the protobuf value v is exactly the tagged image of the Go value i
+//@ spec tagged(v *v1proto.SQLiteValue, i interface{}) bool = v != nil &&
+//@   imp(i == nil, v.Type == v1proto.Type_NULL) &&
+//@   imp(typeis(i, int64), v.Type == v1proto.Type_INT && v.Int == i.(int64)) &&
+//@   imp(typeis(i, float64), v.Type == v1proto.Type_REAL && fpbits_eq(v.Real, i.(float64))) &&
+//@   imp(typeis(i, string), v.Type == v1proto.Type_TEXT && v.Text == i.(string)) &&
+//@   imp(typeis(i, []byte), v.Type == v1proto.Type_BLOB && v.Blob == i.([]byte))
+
+//@ func NewKey
+//@   requires sqlTyped(i) || goIntTyped(i)
+//@   ensures  result != nil && fresh(result) && result.SQLiteValue != nil && fresh(result.SQLiteValue)
+//@   ensures tagged: tagged(result.SQLiteValue, i)
+//@   ensures int: imp(typeis(i, int), result.Type == v1proto.Type_INT && result.Int == int(i.(int)))
+//@   ensures int8: imp(typeis(i, int8), result.Type == v1proto.Type_INT && result.Int == int(i.(int8)))
+//@   ensures int16: imp(typeis(i, int16), result.Type == v1proto.Type_INT && result.Int == int(i.(int16)))
+//@   ensures int32: imp(typeis(i, int32), result.Type == v1proto.Type_INT && result.Int == int(i.(int32)))
+//@   ensures uint: imp(typeis(i, uint), result.Type == v1proto.Type_INT && result.Int == wrap64(int(i.(uint))))
+//@   ensures uint8: imp(typeis(i, uint8), result.Type == v1proto.Type_INT && result.Int == int(i.(uint8)))
+//@   ensures uint16: imp(typeis(i, uint16), result.Type == v1proto.Type_INT && result.Int == int(i.(uint16)))
+//@   ensures uint32: imp(typeis(i, uint32), result.Type == v1proto.Type_INT && result.Int == int(i.(uint32)))
+//@   modifies nothing
+
+//@ func toSQLiteValue
+//@   requires sqlTyped(i) || goIntTyped(i)
+//@   ensures  result != nil && fresh(result)
+//@   ensures tagged: tagged(result, i)
+//@   modifies nothing
+
+//@ func ToColumnValue
+//@   requires sqlTyped(i) || goIntTyped(i)
+//@   ensures  result != nil && fresh(result) && result.UpdateOffset == nil && result.Value != nil && fresh(result.Value)
+//@   ensures tagged: tagged(result.Value, i)
+//@   modifies nothing
+
+// FromSQLiteValue is the inverse of the tagging on the five storage classes:
+// FromSQLiteValue(toSQLiteValue(v)) == v with the same dynamic type.
+//@ func FromSQLiteValue
+//@   requires s != nil
+//@   ensures int: imp(s.Type == v1proto.Type_INT, typeis(result, int64) && result.(int64) == s.Int)
+//@   ensures real: imp(s.Type == v1proto.Type_REAL, typeis(result, float64) && fpbits_eq(result.(float64), s.Real))
+//@   ensures text: imp(s.Type == v1proto.Type_TEXT, typeis(result, string) && result.(string) == s.Text)
+//@   ensures blob: imp(s.Type == v1proto.Type_BLOB, typeis(result, []byte) && result.([]byte) == s.Blob)
+//@   ensures null: imp(!keyTyped(int(s.Type)), result == nil)
+//@   ensures roundtrip: imp(sqlTyped(i0) && tagged(s, i0), result == i0)
+//@   any i0 interface{}
+//@   modifies nothing
+
+// ---------------------------------------------------------------------------
+// Row merge (properties C01, C02, C15, value part of C08).
+//
+// Abstract row, for one arbitrary column c: status (Deleted, absolute status
+// time) and the column's presence, absolute assignment time and value
+// (identity of the immutable stored value object).
+
+//@ ghosttype AbsRow struct { D bool; Dt int; P bool; Ut int; V int }
+
+// All absolute times a row carries lie within +-2^62 ns of the epoch
+// (years 1823..2116), so no time.Sub saturates and no offset overflows.
+//@ spec absOK(t int) bool = -4611686018427387904 < t && t < 4611686018427387904
+//@ spec negInf() int = -62135596800000000000
+
+//@ spec dtime(r *v1proto.Row, base time.Time) int = ns(base) + dur(r.DeleteUpdateOffset)
+//@ spec utime(cv *v1proto.ColumnValue, base time.Time) int = ns(base) + dur(cv.UpdateOffset)
+
+//@ spec absRow(r *v1proto.Row, base time.Time, c string) AbsRow = AbsRow{D: r.Deleted, Dt: dtime(r, base),
+//@     P: has(r.ColumnValues, c),
+//@     Ut: ite(has(r.ColumnValues, c), utime(r.ColumnValues[c], base), 0),
+//@     V: ite(has(r.ColumnValues, c), int(r.ColumnValues[c].Value), 0)}
+
+// rowOK: non-nil, stored column values non-nil with non-nil values, times in range.
+//@ spec colOK(r *v1proto.Row, base time.Time, c string) bool = imp(has(r.ColumnValues, c),
+//@     r.ColumnValues[c] != nil && absOK(utime(r.ColumnValues[c], base)))
+//@ spec rowHeadOK(r *v1proto.Row, base time.Time) bool = r != nil && absOK(dtime(r, base))
+
+// The documented merge, per column (README "Multiple Writers"): the status is
+// decided by the later status time (ties: second argument); a live winner
+// over a deleted loser resets every value assigned before the winner's status
+// time; each column keeps the later assignment (ties: first argument).
+//@ spec mW2(a AbsRow, b AbsRow) bool = !(a.Dt > b.Dt)
+//@ spec mReset(a AbsRow, b AbsRow) int = ite(mW2(a, b), ite(a.D && !b.D, b.Dt, negInf()), ite(!a.D && b.D, a.Dt, negInf()))
+//@ spec mPick2(a AbsRow, b AbsRow) bool = !a.P || (b.P && a.Ut < b.Ut)
+//@ spec mD(a AbsRow, b AbsRow) bool = ite(mW2(a, b), b.D, a.D)
+//@ spec mP(a AbsRow, b AbsRow) bool = !mD(a, b) && ite(mPick2(a, b), b.P && !(b.Ut < mReset(a, b)), a.P && !(a.Ut < mReset(a, b)))
+//@ spec M(a AbsRow, b AbsRow) AbsRow = AbsRow{D: mD(a, b), Dt: ite(mW2(a, b), b.Dt, a.Dt), P: mP(a, b),
+//@     Ut: ite(mP(a, b), ite(mPick2(a, b), b.Ut, a.Ut), 0),
+//@     V: ite(mP(a, b), ite(mPick2(a, b), b.V, a.V), 0)}
+
+//@ func DeleteUpdateTime
+//@   ensures ns(result) == ns(baseTime) + dur(offset)
+//@   modifies nothing
+
+//@ func UpdateTime
+//@   requires cv != nil
+//@   ensures ns(result) == utime(cv, baseTime)
+//@   modifies nothing
+
+//@ func hideDeletedValue
+//@   requires cv != nil
+//@   ensures result == (utime(cv, inputTime) < ns(resetValuesBefore))
+//@   modifies nothing
+
+// adj re-bases a column value to another base time. The stored value object
+// is shared, never copied or altered; the input is not modified.
+//@ func adj
+//@   requires cv != nil && absOK(utime(cv, inTime)) && absOK(ns(outTime))
+//@   ensures  result != nil && (result == cv || fresh(result))
+//@   ensures value: result.Value == cv.Value
+//@   ensures time: utime(result, outTime) == utime(cv, inTime)
+//@   modifies nothing
+
+//@ func MergeRows
+//@   requires rowHeadOK(r1, t1) && rowHeadOK(r2, t2) && absOK(ns(outTime))
+//@   requires forall k string :: colOK(r1, t1, k) && colOK(r2, t2, k)
+//@   any c string
+//@   ensures  result != nil && fresh(result) && rowHeadOK(result, outTime)
+//@   ensures merge: absRow(result, outTime, c) == M(absRow(r1, t1, c), absRow(r2, t2, c))
+//@   ensures colok: colOK(result, outTime, c)
+//@   ensures deleted-empty: imp(result.Deleted, !has(result.ColumnValues, c))
+//@   ensures value-shared: imp(has(result.ColumnValues, c), (has(r1.ColumnValues, c) && result.ColumnValues[c].Value == r1.ColumnValues[c].Value) || (has(r2.ColumnValues, c) && result.ColumnValues[c].Value == r2.ColumnValues[c].Value))
+//@   modifies nothing
+//@   loop 1 invariant forall k string :: has(allKeys, k) == visited(k) && imp(visited(k), has(r1.ColumnValues, k))
+//@   loop 2 invariant forall k string :: has(allKeys, k) == (has(r1.ColumnValues, k) || visited(k)) && imp(visited(k), has(r2.ColumnValues, k))
+//@   loop 3 invariant forall k string :: imp(visited(k), absRow(res, outTime, k) == M(absRow(r1, t1, k), absRow(r2, t2, k)) && colOK(res, outTime, k)) && imp(!visited(k), !has(res.ColumnValues, k))
+//@   loop 3 invariant forall k string :: imp(has(res.ColumnValues, k), (has(r1.ColumnValues, k) && res.ColumnValues[k].Value == r1.ColumnValues[k].Value) || (has(r2.ColumnValues, k) && res.ColumnValues[k].Value == r2.ColumnValues[k].Value))
+//@   loop 3 invariant forall k string :: has(allKeys, k) == (has(r1.ColumnValues, k) || has(r2.ColumnValues, k))
+
+// Algebra of the row merge on abstract rows (one arbitrary column). rowAbsInv
+// is what MergeRows establishes (postconditions merge/colok/deleted-empty);
+// tieOK is the property's hypothesis "pairwise distinct write times on
+// conflicting rows (or byte-identical retries)": equal times mean the same event.
+//@ spec rowAbsInv(a AbsRow) bool = absOK(a.Dt) && imp(a.P, absOK(a.Ut)) && imp(!a.P, a.Ut == 0 && a.V == 0) && imp(a.D, !a.P)
+//@ spec tieOK(a AbsRow, b AbsRow) bool = imp(a.Dt == b.Dt, a.D == b.D) && imp(a.P && b.P && a.Ut == b.Ut, a.V == b.V)
+
+//@ lemma M-inv
+//@   any a AbsRow
+//@   any b AbsRow
+//@   assume rowAbsInv(a) && rowAbsInv(b)
+//@   show rowAbsInv(M(a, b))
+
+//@ lemma M-idem
+//@   any a AbsRow
+//@   assume rowAbsInv(a)
+//@   show M(a, a) == a
+
+//@ lemma M-comm
+//@   any a AbsRow
+//@   any b AbsRow
+//@   assume rowAbsInv(a) && rowAbsInv(b) && tieOK(a, b)
+//@   show M(a, b) == M(b, a)
+
+// Associativity and absorption ("merging an ancestor again adds nothing") do
+// NOT hold for the row merge in general: a deleted row keeps no column values,
+// so an UPDATE that raced with a DELETE is lost or kept depending on whether
+// it meets the delete marker before or after a later re-INSERT. The general
+// statements are kept as obligations (known findings, /verif/known_findings.json);
+// the cases below are proved.
+//
+// full: a live row carries the column with a time not older than its status
+// time (what INSERT through SQL establishes: every column assigned at the
+// insert time; M-full shows merges preserve it).
+//@ spec full(a AbsRow) bool = imp(!a.D, a.P && a.Ut >= a.Dt)
+// noReinsert: among the rows merged, every delete is later than every live
+// row's status time (no INSERT after a DELETE of the same key in the merged set).
+//@ spec noReinsert(x AbsRow, y AbsRow) bool = imp(x.D && !y.D, y.Dt < x.Dt) && imp(y.D && !x.D, x.Dt < y.Dt)
+
+//@ lemma M-full
+//@   any a AbsRow
+//@   any b AbsRow
+//@   assume rowAbsInv(a) && rowAbsInv(b) && tieOK(a, b) && full(a) && full(b)
+//@   show full(M(a, b))
+
+//@ lemma M-assoc-no-delete
+//@   any a AbsRow
+//@   any b AbsRow
+//@   any c AbsRow
+//@   assume rowAbsInv(a) && rowAbsInv(b) && rowAbsInv(c) && tieOK(a, b) && tieOK(b, c) && tieOK(a, c)
+//@   assume !a.D && !b.D && !c.D
+//@   show M(M(a, b), c) == M(a, M(b, c))
+
+//@ lemma M-assoc-no-reinsert
+//@   any a AbsRow
+//@   any b AbsRow
+//@   any c AbsRow
+//@   assume rowAbsInv(a) && rowAbsInv(b) && rowAbsInv(c) && tieOK(a, b) && tieOK(b, c) && tieOK(a, c)
+//@   assume full(a) && full(b) && full(c) && noReinsert(a, b) && noReinsert(b, c) && noReinsert(a, c)
+//@   show M(M(a, b), c) == M(a, M(b, c))
+
+//@ lemma M-absorb-full
+//@   any a AbsRow
+//@   any b AbsRow
+//@   assume rowAbsInv(a) && rowAbsInv(b) && tieOK(a, b) && full(a) && full(b)
+//@   show M(M(a, b), a) == M(a, b)
+
+//@ lemma M-assoc
+//@   any a AbsRow
+//@   any b AbsRow
+//@   any c AbsRow
+//@   assume rowAbsInv(a) && rowAbsInv(b) && rowAbsInv(c) && tieOK(a, b) && tieOK(b, c) && tieOK(a, c)
+//@   show M(M(a, b), c) == M(a, M(b, c))
+
+//@ lemma M-absorb
+//@   any a AbsRow
+//@   any b AbsRow
+//@   assume rowAbsInv(a) && rowAbsInv(b) && tieOK(a, b)
+//@   show M(M(a, b), a) == M(a, b)
